@@ -138,11 +138,13 @@ func (a *HypAttributes) Validate() error {
 	}
 
 	// NOTE: the Hyperlane module creates sdk.Coins from the max fee, which panics on an invalid
-	// coin. A zero amount is accepted with any denom because zero coins are discarded.
+	// coin. A zero amount is accepted with an empty denom (the unset max fee) because zero coins
+	// are discarded, but a denom that is set must be valid: an arbitrary string does not survive
+	// the JSON encoding of the payload.
 	if a.MaxFee.Amount.IsNil() || a.MaxFee.Amount.IsNegative() {
 		return errors.New("max fee amount must be set and cannot be negative")
 	}
-	if !a.MaxFee.Amount.IsZero() {
+	if !a.MaxFee.Amount.IsZero() || a.MaxFee.Denom != "" {
 		if err := sdk.ValidateDenom(a.MaxFee.Denom); err != nil {
 			return fmt.Errorf("invalid max fee denom: %w", err)
 		}
